@@ -108,6 +108,95 @@ static nni_reap_list aio_reap_list = {
 static void nni_aio_expire_add(nni_aio *);
 static void nni_aio_expire_rm(nni_aio *);
 
+#ifdef NNG_VERIF
+// Verification hook H2 (add-only): a trace of the aio framework's critical
+// sections.  Each record is taken inside the critical section (or, for the
+// unlocked owner-only sites, right after the assignment) and carries the
+// framework fields as they are after the step.  See /verif/DESIGN.md.
+#define NNI_VERIF_TRACE_MAX (1u << 20)
+typedef struct {
+	uint32_t seq;
+	uint8_t  kind;
+	uint8_t  stop, abort, expiring, expire_ok, sleep, cancel, on_eq, use_expire;
+	int32_t  result;
+	int32_t  arg;
+	void    *aio;
+} nni_verif_rec;
+static nni_verif_rec  *nni_verif_trace;
+static nni_atomic_int  nni_verif_trace_n;
+static nni_atomic_bool nni_verif_trace_on;
+enum {
+	VT_START_OK = 1,
+	VT_START_STOPPED,
+	VT_START_ABORTED,
+	VT_START_TIMEOUT,
+	VT_FINISH,
+	VT_ABORT,
+	VT_STOP,
+	VT_CLOSE,
+	VT_FINI,
+	VT_EXPIRE,
+	VT_EXPIRE_DONE,
+	VT_SLEEP_CANCEL,
+	VT_RESET,
+	VT_SLEEP_SETUP
+};
+static void
+nni_verif_rec_aio(int kind, nni_aio *aio, int arg)
+{
+	if (!nni_atomic_get_bool(&nni_verif_trace_on)) {
+		return;
+	}
+	int i = nni_atomic_inc_nv(&nni_verif_trace_n) - 1;
+	if ((unsigned) i >= NNI_VERIF_TRACE_MAX) {
+		return;
+	}
+	nni_verif_rec *r = &nni_verif_trace[i];
+	r->seq           = (uint32_t) i;
+	r->kind          = (uint8_t) kind;
+	r->stop          = aio->a_stop;
+	r->abort         = aio->a_abort;
+	r->expiring      = aio->a_expiring;
+	r->expire_ok     = aio->a_expire_ok;
+	r->sleep         = aio->a_sleep;
+	r->cancel        = aio->a_cancel_fn != NULL;
+	r->on_eq         = nni_list_node_active(&aio->a_expire_node);
+	r->use_expire    = aio->a_use_expire;
+	r->result        = (int32_t) aio->a_result;
+	r->arg           = arg;
+	r->aio           = aio;
+}
+void
+nng_verif_trace_start(void)
+{
+	if (nni_verif_trace == NULL) {
+		nni_verif_trace =
+		    nni_zalloc(sizeof(nni_verif_rec) * NNI_VERIF_TRACE_MAX);
+	}
+	nni_atomic_set(&nni_verif_trace_n, 0);
+	nni_atomic_set_bool(&nni_verif_trace_on, true);
+}
+// stops tracing; calls cb for each record in order; returns the count
+int
+nng_verif_trace_stop(void (*cb)(unsigned seq, int kind, void *aio,
+    const unsigned char *flags8, int result, int arg))
+{
+	nni_atomic_set_bool(&nni_verif_trace_on, false);
+	int n = nni_atomic_get(&nni_verif_trace_n);
+	if ((unsigned) n > NNI_VERIF_TRACE_MAX) {
+		n = (int) NNI_VERIF_TRACE_MAX;
+	}
+	for (int i = 0; (cb != NULL) && (i < n); i++) {
+		nni_verif_rec *r = &nni_verif_trace[i];
+		cb(r->seq, r->kind, r->aio, &r->stop, r->result, r->arg);
+	}
+	return (n);
+}
+#define NNI_VERIF_AIO(kind, aio, arg) nni_verif_rec_aio(kind, aio, arg)
+#else
+#define NNI_VERIF_AIO(kind, aio, arg)
+#endif
+
 void
 nni_aio_init(nni_aio *aio, nni_cb cb, void *arg)
 {
@@ -142,6 +231,7 @@ nni_aio_fini(nni_aio *aio)
 		arg               = aio->a_cancel_arg;
 		aio->a_cancel_fn  = NULL;
 		aio->a_cancel_arg = NULL;
+		NNI_VERIF_AIO(VT_FINI, aio, fn != NULL);
 		nni_mtx_unlock(&eq->eq_mtx);
 
 		if (fn != NULL) {
@@ -231,6 +321,7 @@ nni_aio_stop(nni_aio *aio)
 		arg               = aio->a_cancel_arg;
 		aio->a_cancel_fn  = NULL;
 		aio->a_cancel_arg = NULL;
+		NNI_VERIF_AIO(VT_STOP, aio, fn != NULL);
 		nni_mtx_unlock(&eq->eq_mtx);
 
 		if (fn != NULL) {
@@ -256,6 +347,7 @@ nni_aio_close(nni_aio *aio)
 		aio->a_cancel_fn  = NULL;
 		aio->a_cancel_arg = NULL;
 		aio->a_stop       = true;
+		NNI_VERIF_AIO(VT_CLOSE, aio, fn != NULL);
 		nni_mtx_unlock(&eq->eq_mtx);
 
 		if (fn != NULL) {
@@ -369,6 +461,7 @@ nni_aio_reset(nni_aio *aio)
 	for (unsigned i = 0; i < NNI_NUM_ELEMENTS(aio->a_outputs); i++) {
 		aio->a_outputs[i] = NULL;
 	}
+	NNI_VERIF_AIO(VT_RESET, aio, 0);
 }
 
 bool
@@ -417,6 +510,7 @@ nni_aio_start(nni_aio *aio, nni_aio_cancel_fn cancel, void *data)
 		aio->a_count     = 0;
 		aio->a_result    = NNG_ESTOPPED;
 		aio->a_stopped   = true;
+		NNI_VERIF_AIO(VT_START_STOPPED, aio, 0);
 		nni_mtx_unlock(&eq->eq_mtx);
 		nni_task_dispatch(&aio->a_task);
 		return (false);
@@ -427,6 +521,7 @@ nni_aio_start(nni_aio *aio, nni_aio_cancel_fn cancel, void *data)
 		aio->a_expire_ok = false;
 		aio->a_count     = 0;
 		NNI_ASSERT(aio->a_result != NNG_OK);
+		NNI_VERIF_AIO(VT_START_ABORTED, aio, 0);
 		nni_mtx_unlock(&eq->eq_mtx);
 		nni_task_dispatch(&aio->a_task);
 		return (false);
@@ -437,6 +532,7 @@ nni_aio_start(nni_aio *aio, nni_aio_cancel_fn cancel, void *data)
 		aio->a_result    = aio->a_expire_ok ? NNG_OK : NNG_ETIMEDOUT;
 		aio->a_expire_ok = false;
 		aio->a_count     = 0;
+		NNI_VERIF_AIO(VT_START_TIMEOUT, aio, 0);
 		nni_mtx_unlock(&eq->eq_mtx);
 		nni_task_dispatch(&aio->a_task);
 		return (false);
@@ -451,6 +547,7 @@ nni_aio_start(nni_aio *aio, nni_aio_cancel_fn cancel, void *data)
 	if ((aio->a_expire != NNI_TIME_NEVER) && (cancel != NULL)) {
 		nni_aio_expire_add(aio);
 	}
+	NNI_VERIF_AIO(VT_START_OK, aio, cancel != NULL);
 	nni_mtx_unlock(&eq->eq_mtx);
 	return (true);
 }
@@ -477,6 +574,7 @@ nni_aio_abort(nni_aio *aio, nng_err rv)
 			aio->a_abort  = true;
 			aio->a_result = rv;
 		}
+		NNI_VERIF_AIO(VT_ABORT, aio, (int) rv);
 		nni_mtx_unlock(&eq->eq_mtx);
 
 		// Stop any I/O at the provider level.
@@ -511,6 +609,7 @@ nni_aio_finish_impl(
 	aio->a_use_expire       = false;
 	skipped_cb              = aio->a_skipped_callback;
 	aio->a_skipped_callback = NULL;
+	NNI_VERIF_AIO(VT_FINISH, aio, (int) rv);
 	nni_mtx_unlock(&eq->eq_mtx);
 
 	if (skipped_cb != NULL) {
@@ -733,13 +832,21 @@ nni_aio_expire_loop(void *arg)
 			if (aio->a_sleep) {
 				aio->a_result = rv;
 				aio->a_sleep  = false;
+				NNI_VERIF_AIO(VT_EXPIRE, aio, (int) rv);
 				nni_task_dispatch(&aio->a_task);
 			} else if (cancel_fn != NULL) {
+				NNI_VERIF_AIO(VT_EXPIRE, aio, (int) rv);
 				nni_mtx_unlock(mtx);
 				cancel_fn(aio, cancel_arg, rv);
 				nni_mtx_lock(mtx);
 			}
+#ifdef NNG_VERIF
+			else {
+				NNI_VERIF_AIO(VT_EXPIRE, aio, (int) rv);
+			}
+#endif
 			aio->a_expiring = false;
+			NNI_VERIF_AIO(VT_EXPIRE_DONE, aio, 0);
 		}
 		nni_cv_wake(cv);
 	}
@@ -839,6 +946,7 @@ nni_sleep_cancel(nng_aio *aio, void *arg, nng_err rv)
 
 	aio->a_sleep = false;
 	nni_aio_expire_rm(aio);
+	NNI_VERIF_AIO(VT_SLEEP_CANCEL, aio, (int) rv);
 	nni_mtx_unlock(&eq->eq_mtx);
 
 	nni_aio_finish_error(aio, rv);
@@ -866,6 +974,7 @@ nni_sleep_aio(nng_duration ms, nng_aio *aio)
 	aio->a_expire =
 	    ms == NNG_DURATION_INFINITE ? NNI_TIME_NEVER : nni_clock() + ms;
 
+	NNI_VERIF_AIO(VT_SLEEP_SETUP, aio, 0);
 	// we don't do anything else here, so we can ignore the return
 	(void) nni_aio_start(aio, nni_sleep_cancel, NULL);
 }
